@@ -304,6 +304,17 @@ class Gen:
     def cursor_level(self, L, fname):
         """void fname(V v, C& c, Tokens& tk, Out& o, const unsigned char* p): interprets member steps until 'x'"""
         w = self.w
+        ltag = self.level_tag(L)
+
+        def get(name, wexpr):
+            return "(g_bytag ? sbepp::get_by_tag<%s::%s>(v, %s) : v.%s(%s))" % (ltag, name, wexpr, name, wexpr)
+
+        def getv(name, wexpr):
+            # statement form for void-returning (skip) calls
+            return "if(g_bytag) sbepp::get_by_tag<%s::%s>(v, %s); else v.%s(%s);" % (ltag, name, wexpr, name, wexpr)
+
+        def setv(name, wexpr):
+            return "if(g_bytag) sbepp::set_by_tag<%s::%s>(v, val_, %s); else v.%s(val_, %s);" % (ltag, name, wexpr, name, wexpr)
         for g in L.groups:
             self.cursor_level(g, fname + "_" + str(L.groups.index(g)))
         w("template<typename V_, typename C_> static void %s(V_ v, C_& c, rt::Tokens& tk, rt::Out& o, unsigned char* p) {" % fname)
@@ -317,9 +328,9 @@ class Gen:
             nm = cstr(m.name)
             for wk, wexpr in self.WRAPS:
                 if wk == "s":
-                    w("            if(wr == \"s\") { v.%s(%s); o.tok(\"skipped\"); }" % (m.name, wexpr))
+                    w("            if(wr == \"s\") { %s o.tok(\"skipped\"); }" % getv(m.name, wexpr))
                 else:
-                    w("            if(wr == \"%s\" && rw == \"r\") { cur_report(o, p, %s, v.%s(%s)); }" % (wk, nm, m.name, wexpr))
+                    w("            if(wr == \"%s\" && rw == \"r\") { cur_report(o, p, %s, %s); }" % (wk, nm, get(m.name, wexpr)))
             if m.kind in ("scalar", "enum", "set"):
                 T = self.fresh("T")
                 if m.kind == "scalar":
@@ -331,7 +342,7 @@ class Gen:
                 w("            if(rw == \"w\") { typedef decltype(v.%s()) %s; std::uint64_t bits_ = tk.u64(); %s val_ = %s;" % (m.name, T, T, mk))
                 for wk, wexpr in self.WRAPS:
                     if wk != "s":
-                        w("                if(wr == \"%s\") v.%s(val_, %s);" % (wk, m.name, wexpr))
+                        w("                if(wr == \"%s\") { %s }" % (wk, setv(m.name, wexpr)))
                 w("                o.tok(\"written\"); }")
             w("            break; }")
         w("        default: o.err(\"bad field index\"); }")
@@ -339,8 +350,9 @@ class Gen:
         w("        if(t == \"g\") { std::size_t k = tk.dec(); std::string wr = tk.next(); switch(k) {")
         for i, g in enumerate(L.groups):
             w("        case %d: {" % i)
-            w("            if(wr == \"s\") { v.%s(sbepp::cursor_ops::skip(c)); o.tok(\"skipped\"); o.kv(\"c\", c.pointer() - p); break; }" % g.name)
-            w("            auto g_ = (wr == \"p\") ? v.%s(c) : (wr == \"i\") ? v.%s(sbepp::cursor_ops::init(c)) : (wr == \"d\") ? v.%s(sbepp::cursor_ops::dont_move(c)) : v.%s(sbepp::cursor_ops::init_dont_move(c));" % (g.name, g.name, g.name, g.name))
+            w("            if(wr == \"s\") { %s o.tok(\"skipped\"); o.kv(\"c\", c.pointer() - p); break; }" % getv(g.name, "sbepp::cursor_ops::skip(c)"))
+            w("            auto g_ = (wr == \"p\") ? %s : (wr == \"i\") ? %s : (wr == \"d\") ? %s : %s;" % (
+                get(g.name, "c"), get(g.name, "sbepp::cursor_ops::init(c)"), get(g.name, "sbepp::cursor_ops::dont_move(c)"), get(g.name, "sbepp::cursor_ops::init_dont_move(c)")))
             w("            o.tok(std::string(\"G \") + %s + \" @\" + std::to_string(reinterpret_cast<unsigned char*>(sbepp::addressof(g_)) - p)); o.kv(\"c\", c.pointer() - p);" % cstr(g.name))
             w("            std::string it = tk.next();")
             sub = fname + "_" + str(i)
@@ -354,8 +366,9 @@ class Gen:
         w("        if(t == \"d\") { std::size_t k = tk.dec(); std::string wr = tk.next(); switch(k) {")
         for i, d in enumerate(L.data):
             w("        case %d: {" % i)
-            w("            if(wr == \"s\") { v.%s(sbepp::cursor_ops::skip(c)); o.tok(\"skipped\"); o.kv(\"c\", c.pointer() - p); break; }" % d.name)
-            w("            auto d_ = (wr == \"p\") ? v.%s(c) : (wr == \"i\") ? v.%s(sbepp::cursor_ops::init(c)) : (wr == \"d\") ? v.%s(sbepp::cursor_ops::dont_move(c)) : v.%s(sbepp::cursor_ops::init_dont_move(c));" % (d.name, d.name, d.name, d.name))
+            w("            if(wr == \"s\") { %s o.tok(\"skipped\"); o.kv(\"c\", c.pointer() - p); break; }" % getv(d.name, "sbepp::cursor_ops::skip(c)"))
+            w("            auto d_ = (wr == \"p\") ? %s : (wr == \"i\") ? %s : (wr == \"d\") ? %s : %s;" % (
+                get(d.name, "c"), get(d.name, "sbepp::cursor_ops::init(c)"), get(d.name, "sbepp::cursor_ops::dont_move(c)"), get(d.name, "sbepp::cursor_ops::init_dont_move(c)")))
             w("            o.tok(std::string(\"D \") + %s + \" @\" + std::to_string(reinterpret_cast<unsigned char*>(sbepp::addressof(d_)) - p) + \" n=\" + std::to_string(d_.size())); o.kv(\"c\", c.pointer() - p);" % cstr(d.name))
             w("            break; }")
         w("        default: o.err(\"bad data index\"); } continue; }")
@@ -515,7 +528,7 @@ class Gen:
         w("        default: return false; }")
         w("        if(!gb.canary_ok(p)) o.err(\"write before the buffer\");")
         w("        o.tok(\"BUF \" + rt::Out::hexbytes(p, img.size())); return true; }")
-        w("    if(cmd == \"cursor\") { std::vector<unsigned char> img = tk.bytes(); unsigned char* p = gb.place(img.data(), img.size(), false);")
+        w("    if(cmd == \"cursor\" || cmd == \"cursortag\") { g_bytag = (cmd == \"cursortag\"); std::vector<unsigned char> img = tk.bytes(); unsigned char* p = gb.place(img.data(), img.size(), false);")
         w("        switch(mi) {")
         for i in range(len(m.messages)):
             w("        case %d: cursor_%d(p, img.size(), tk, o); break;" % (i, i))
